@@ -79,7 +79,7 @@ theorem expLen_add_B2 (e : Int) (n : Nat) (hn : 2 ≤ n) (h3 : 3 ≤ e + n) : ex
     (`k = 1`, `d = n`) -/
 theorem roundInt_len (h : Char) (t : List Char) (pend : Bool) (e0 : Int) (n : Nat)
     (ht : t.length + 1 ≤ n) (hpend : pend = true → t = [])
-    (hg : e0.natAbs + n + 2 < 9223372036854775808) :
+    (hg : -9223372036854775808 ≤ e0 ∧ e0 + (n : Int) < 9223372036854775808) :
     (roundInt h t pend (wrap64 (e0 + ((n : Int) - ((1 + t.length : Nat) : Int))))).fp = [] ∧
     ∃ k d : Nat,
       (roundInt h t pend (wrap64 (e0 + ((n : Int) - ((1 + t.length : Nat) : Int))))).ip.length = k ∧
@@ -110,7 +110,7 @@ theorem mlen_nil (ip : List Char) : mlen ip [] = ip.length := by simp [mlen]
 /-- kind C (and the part of kind B that does not need the guard): budget `n + 2` -/
 theorem roundInt_len_C (h : Char) (t : List Char) (pend : Bool) (e0 : Int) (n : Nat)
     (ht : t.length + 1 ≤ n) (hpend : pend = true → t = [])
-    (hg : e0.natAbs + n + 2 < 9223372036854775808) :
+    (hg : -9223372036854775808 ≤ e0 ∧ e0 + (n : Int) < 9223372036854775808) :
     mlen (roundInt h t pend (wrap64 (e0 + ((n : Int) - ((1 + t.length : Nat) : Int))))).ip
       (roundInt h t pend (wrap64 (e0 + ((n : Int) - ((1 + t.length : Nat) : Int))))).fp +
       expLen (roundInt h t pend (wrap64 (e0 + ((n : Int) - ((1 + t.length : Nat) : Int))))).e ≤ n + 2 + expLen e0 := by
@@ -123,7 +123,7 @@ theorem roundInt_len_C (h : Char) (t : List Char) (pend : Bool) (e0 : Int) (n : 
 theorem roundInt_len_B (h : Char) (t : List Char) (pend : Bool) (e0 : Int) (n p : Nat)
     (_hp1 : 1 ≤ p) (hpn : p < n) (ht : t.length + 1 ≤ p) (hpend : pend = true → t = [])
     (hG : 1 < (n : Int) - (p : Int) + e0)
-    (hg : e0.natAbs + n + 2 < 9223372036854775808) :
+    (hg : -9223372036854775808 ≤ e0 ∧ e0 + (n : Int) < 9223372036854775808) :
     mlen (roundInt h t pend (wrap64 (e0 + ((n : Int) - ((1 + t.length : Nat) : Int))))).ip
       (roundInt h t pend (wrap64 (e0 + ((n : Int) - ((1 + t.length : Nat) : Int))))).fp +
       expLen (roundInt h t pend (wrap64 (e0 + ((n : Int) - ((1 + t.length : Nat) : Int))))).e ≤ n + expLen e0 := by
@@ -139,7 +139,7 @@ theorem roundInt_len_B (h : Char) (t : List Char) (pend : Bool) (e0 : Int) (n p 
 theorem roundIp_len_B (h : Char) (tl : List Char) (p : Nat) (inc : Bool) (e0 : Int)
     (hp1 : 1 ≤ p) (hpn : p < tl.length + 1)
     (hG : 1 < ((tl.length + 1 : Nat) : Int) - (p : Int) + e0)
-    (hg : e0.natAbs + (tl.length + 1) + 2 < 9223372036854775808) :
+    (hg : -9223372036854775808 ≤ e0 ∧ e0 + ((tl.length + 1 : Nat) : Int) < 9223372036854775808) :
     mlen (roundIp h tl p inc e0).ip (roundIp h tl p inc e0).fp + expLen (roundIp h tl p inc e0).e ≤
       tl.length + 1 + expLen e0 := by
   unfold roundIp
@@ -149,7 +149,7 @@ theorem roundIp_len_B (h : Char) (tl : List Char) (p : Nat) (inc : Bool) (e0 : I
 
 theorem roundIp_len_C (h : Char) (tl : List Char) (p : Nat) (inc : Bool) (e0 : Int)
     (_hp1 : 1 ≤ p)
-    (hg : e0.natAbs + (tl.length + 1) + 2 < 9223372036854775808) :
+    (hg : -9223372036854775808 ≤ e0 ∧ e0 + ((tl.length + 1 : Nat) : Int) < 9223372036854775808) :
     mlen (roundIp h tl p inc e0).ip (roundIp h tl p inc e0).fp + expLen (roundIp h tl p inc e0).e ≤
       tl.length + 1 + 2 + expLen e0 := by
   unfold roundIp
@@ -159,7 +159,7 @@ theorem roundIp_len_C (h : Char) (tl : List Char) (p : Nat) (inc : Bool) (e0 : I
 
 /-- without `int` wrap-around the precision branch never lengthens `mantissa + exponent part` -/
 theorem roundP_len (m : Mant) (p : Nat) (hp : 0 < p)
-    (hg : m.e.natAbs + mlen m.ip m.fp + 3 < 9223372036854775808) :
+    (hg : -9223372036854775808 ≤ m.e ∧ m.e + (mlen m.ip m.fp : Int) < 9223372036854775808) :
     mlen (roundP m p).ip (roundP m p).fp + expLen (roundP m p).e ≤ mlen m.ip m.fp + expLen m.e := by
   unfold roundP
   split
@@ -256,5 +256,26 @@ theorem modelExp_str (l : Lex) (hwf : l.WF) :
   have hB2 : l.ip ++ (l.dotPart ++ l.exPart) = (l.ip ++ l.dotPart) ++ l.exPart := by simp
   rw [hB2, dropWhile_append_stop (notE_dotPart l hwf) (exPart_notE l hwf)]
   exact expOfRest_exPart l hwf
+
+
+/-- when the exponent-range exit of `Number` is not taken, the precision branch cannot wrap around -/
+theorem noWrap_of_guard {prec : Int} {e : Int} {len n : Nat} (hp : 0 < prec)
+    (hg : (decide (0 < prec) && expNearEdge e len) = false) (hn : n ≤ len) :
+    -9223372036854775808 ≤ e ∧ e + (n : Int) < 9223372036854775808 := by
+  have hpp : decide (0 < prec) = true := by simpa using hp
+  rw [hpp, Bool.true_and] at hg
+  unfold expNearEdge at hg
+  simp only [Bool.or_eq_false_iff, decide_eq_false_iff_not] at hg
+  omega
+
+/-- `Number` never lengthens its input: every byte string, every precision -/
+theorem number_length_all (s : List Char) (prec : Int) : (number s prec).length ≤ s.length := by
+  apply number_length_gen
+  intro m0 _ hml hguard
+  by_cases hp : prec ≤ 0
+  · rw [rnd_nonpos hp]; exact Nat.le_refl _
+  · unfold rnd
+    rw [if_pos (by omega)]
+    exact roundP_len m0 prec.toNat (by omega) (noWrap_of_guard (by omega) hguard hml)
 
 end Verif.Proofs.Num
